@@ -54,5 +54,9 @@ func S2KparamsToItertions(s2kparams string) (int64, error) {
 		return int64(s2kParamsZero), errors.New("invalid s2kparams, cannot decode string to bytes")
 	}
 	i = binary.BigEndian.Uint32(b)
+	if i == 0 {
+		// RFC 3962 section 4: four zero octets stand for 4,294,967,296 iterations, not for none
+		return int64(s2kParamsZero), nil
+	}
 	return int64(i), nil
 }
